@@ -94,19 +94,8 @@ func replayPayload(t *testing.T, into any) bool {
 	if p == "" {
 		return false
 	}
-	b, err := os.ReadFile(p)
-	if err != nil {
-		t.Fatalf("replay: %v", err)
-	}
-	var v struct {
-		Replay json.RawMessage `json:"replay"`
-	}
-	if err := json.Unmarshal(b, &v); err != nil {
-		t.Fatalf("replay: %v", err)
-	}
-	if err := json.Unmarshal(v.Replay, into); err != nil {
-		t.Fatalf("replay payload: %v", err)
-	}
+	loadRegress(t, p, into)
+	ev.Get().Complete() // a replay run has no budget to complete
 	return true
 }
 
